@@ -624,12 +624,49 @@ def _check_data(ck, src, sel, inputs, kind, rng, tier, with_coord=False):
 
 
 # ------------------------------------------------------------------------------------------------- driver
+def _efd_oracle(idn, der):
+    """edge_face_distances from the result's own tables: arc between the centres (normalised corner mean) of the two faces
+    of an edge, 0 on boundary edges.  Only used to decide whether uxarray's values can be trusted for the history comparison
+    (on the unchanged tree the function reads node coordinates with face ids - C16 - and returns garbage)"""
+    if der.get("edge_node_connectivity", ("x",))[0] != "ok" or der.get("edge_face_distances", ("x",))[0] != "ok":
+        return None
+    P = _unit([p[0] for p in idn["spos"]], [p[1] for p in idn["spos"]])
+    corners = [[int(v) for v in row if v != FILL] for row in idn["sf"]]
+    ctr = [_unit(*_centre(P[c])) for c in corners]
+    pairs = [set(mg.edge_pairs_of_face(row)) for row in idn["sf"]]
+    out = []
+    for a, b in der["edge_node_connectivity"][1]:
+        fs = [f for f in range(len(corners)) if tuple(sorted((int(a), int(b)))) in pairs[f]]
+        out.append(_angle_deg(ctr[fs[0]], ctr[fs[1]]) if len(fs) == 2 else 0.0)
+    return np.deg2rad(np.array(out))
+
+
 def _signature(idn, der, sub):
-    sig = {"faces": [tuple(idn["spos"][int(v)] for v in row if v != FILL) if all((v == FILL or 0 <= v < len(idn["spos"])) for v in row) else None
-                     for row in idn["sf"]]}
+    sig = {"faces": ("ok", [tuple(idn["spos"][int(v)] for v in row if v != FILL) if all((v == FILL or 0 <= v < len(idn["spos"])) for v in row) else None
+                            for row in idn["sf"]])}
     for a, o in der.items():
-        sig[a] = ("raises", o[1]) if o[0] == "raises" else ("ok", o[1].shape, o[1].tobytes())
+        sig[a] = ("raises", o[1]) if o[0] == "raises" else ("ok", o[1])
+    want = _efd_oracle(idn, der)
+    if want is not None:
+        got = der["edge_face_distances"][1]
+        if got.shape != want.shape or not np.allclose(got, want, atol=1e-7):
+            sig["edge_face_distances"] = ("untrusted",)
     return sig
+
+
+def _same(x, y):
+    if x is None or y is None or x[0] != y[0]:
+        return x is not None and y is not None and "untrusted" in (x[0], y[0])
+    if x[0] != "ok":
+        return x == y
+    a, b = x[1], y[1]
+    if isinstance(a, list):
+        return a == b
+    if a.shape != b.shape:
+        return False
+    if a.dtype.kind == "f" or b.dtype.kind == "f":
+        return bool(np.allclose(a, b, rtol=1e-12, atol=1e-12, equal_nan=True))
+    return bool(np.array_equal(a, b))
 
 
 def _run_selection(ck, src, sel, history, check_data, rng, tier, base_keys=None):
@@ -732,6 +769,15 @@ def _seam_box(ck):
                     "every element whose reference point lies inside the region", inputs, sorted(got), sorted(exp))
 
 
+def _coord_scenarios(ck):
+    """data carrying a coordinate along the grid dimension: fixed scenarios (all faces in another order; one face)"""
+    m = mg.quad_patch(2, 1)
+    src = Source(m)
+    for name, idx in (("all_reversed", [1, 0]), ("single_element", [1])):
+        sel = {"kind": f"isel_n_face:{name}", "expected": set(idx), "order": idx, "data": (lambda a, i=idx: a.isel(n_face=i))}
+        _check_data(ck, src, sel, {"mesh": m["name"], "call": sel["kind"], "args": {"n_face": idx}}, sel["kind"], None, "quick", with_coord=True)
+
+
 def _shipped_edges(ck, rng):
     """source that ships its own edge table (own order, own end-node order)"""
     m = mg.quad_patch(2, 2)
@@ -786,10 +832,18 @@ def subsets(tier, seed):
         closed = [m for m in meshes if m["closed"]]
         rand = [m for m in meshes if m["name"].startswith("rand_")]
         rng.shuffle(small)
-        meshes = small[:7] + closed[:2] + [closed[2 + seed % (len(closed) - 2)]] + rand[:5]
+        meshes = small[:6] + closed[:2] + [closed[2 + seed % (len(closed) - 2)]] + rand[:4]
+    else:
+        rand = [m for m in meshes if m["name"].startswith("rand_")]
+        meshes = [m for m in meshes if not m["name"].startswith("rand_")] + rand[:30]
     samples = []
     hist_names = [h for h in HISTORIES if h != "none" and (h != "bounds" or _READY["jit"])]
+    import time
+    t0, done = time.time(), 0
     for mi, m in enumerate(meshes):
+        if time.time() - t0 > (30 if tier == "quick" else 420):
+            break                       # safety net only; the mesh counts are chosen to stay below it
+        done += 1
         src = Source(m)
         sels = _selections(src, rng, tier)
         if tier == "quick":
@@ -809,7 +863,7 @@ def subsets(tier, seed):
             if len(samples) < 3 and base is not None:
                 samples.append({"mesh": m["name"], "call": sel["kind"], "args": sel["args"]})
             # histories: a few selections per mesh
-            if base is not None and (si < 2 or tier == "thorough" and si % 5 == 0):
+            if base is not None and (si < 2 or tier == "thorough" and si % 10 == 0):
                 hs = hist_names if tier == "thorough" else rng.sample(hist_names, 3) + ["all"]
                 for h in dict.fromkeys(hs):
                     sig = _run_selection(ck, src, sel, h, False, rng, tier, base_keys=base["_fired"])
@@ -818,8 +872,8 @@ def subsets(tier, seed):
                     for a in sig:
                         if a == "_fired":
                             continue
-                        if sig[a] != base.get(a):
-                            st = sig[a][0] if a != "faces" else "faces"
+                        if not _same(sig[a], base.get(a)):
+                            st = sig[a][0]
                             ck.fail(f"history_dependence:{a}:after_{h}",
                                     f"{a} of the result differs ({'raises ' + sig[a][1] if st == 'raises' else 'other value'}) when "
                                     f"{HISTORIES[h] if h != 'all' else 'everything'} was read on the source before slicing",
@@ -836,8 +890,9 @@ def subsets(tier, seed):
         if _READY["jit"] and mi % 4 == 0:
             _threads(ck, src)
     _seam_box(ck)
+    _coord_scenarios(ck)
     _shipped_edges(ck, rng)
-    bound = (f"{len(meshes)} meshes of the meshgen catalogue (<= {max(m['n_face'] for m in meshes)} faces), per mesh isel by face/node/edge "
+    bound = (f"{done} meshes of the meshgen catalogue (<= {max(m['n_face'] for m in meshes)} faces), per mesh isel by face/node/edge "
              "(unsorted list, ndarray, scalar, numpy scalar, single element, all, reversed), random boxes (regular + antimeridian), "
              "circles, k-nearest for nodes / face centres / edge centres, constant latitudes (node latitudes, between, random); "
              "face/node/edge data of rank 1..3(4) incl. grid dimension first and a coordinate on the grid dimension; "
